@@ -69,12 +69,18 @@ def keyobj(k):
     if k[0] == "S":
         return str(k[1])             # a string of digits: get_path accepts it as a list index
     t = k[1]
+    if t in _ODD_KEYS:
+        return _ODD_KEYS[t]
     f = t % 4
     if f < 2:
         return "k%d" % t
     if f == 2:
         return ("t", t)
     return b"k%d" % t
+
+
+# falsy / unusual hashable keys (None is KNone, 0 is KI 0)
+_ODD_KEYS = {9: "", 10: (), 11: b"", 12: frozenset()}
 
 
 def _tkey(o):
@@ -451,11 +457,13 @@ def gen_pred(rng, depth=0):
 
 def gen_key(rng):
     r = rng.random()
-    if r < 0.4:
+    if r < 0.35:
         return ["I", rng.randint(0, 3)]
-    if r < 0.55:
+    if r < 0.5:
         return ["S", rng.randint(0, 3)]
-    return ["T", rng.randint(0, 8)]
+    if r < 0.6:
+        return ["N"]                      # None is a legitimate dict key (and the root's key)
+    return ["T", rng.randint(0, 12)]
 
 
 def gen_leaf(rng):
